@@ -5,6 +5,7 @@
  * Copyright (C) 2019 David Oberhollenzer <goliath@infraroot.at>
  */
 #include "util/util.h"
+#include "util/rbtree.h"
 #include "common.h"
 
 #include <string.h>
@@ -48,6 +49,31 @@ static bool would_be_own_parent(sqfs_tree_node_t *parent, sqfs_tree_node_t *n)
 	return false;
 }
 
+static int compare_inode_numbers(const void *ctx,
+				 const void *lhs, const void *rhs)
+{
+	sqfs_u32 l = *((const sqfs_u32 *)lhs), r = *((const sqfs_u32 *)rhs);
+	(void)ctx;
+
+	return l < r ? -1 : (l > r ? 1 : 0);
+}
+
+/*
+  SquashFS has no hard links to directories. An image where a directory can be
+  reached a second time (not only from below itself) is corrupted, and walking
+  into it every time takes time and memory exponential in the image size.
+  "visited" holds the inode numbers of all directories entered so far.
+ */
+static int enter_directory(rbtree_t *visited, const sqfs_tree_node_t *n)
+{
+	sqfs_u32 inum = n->inode->base.inode_number;
+
+	if (rbtree_lookup(visited, &inum) != NULL)
+		return SQFS_ERROR_LINK_LOOP;
+
+	return rbtree_insert(visited, &inum, &inum);
+}
+
 static sqfs_tree_node_t *create_node(sqfs_inode_generic_t *inode,
 				     const char *name)
 {
@@ -64,7 +90,7 @@ static sqfs_tree_node_t *create_node(sqfs_inode_generic_t *inode,
 
 static int fill_dir(sqfs_dir_reader_t *dr, sqfs_tree_node_t *root,
 		    sqfs_dir_reader_state_t *state,
-		    unsigned int flags)
+		    unsigned int flags, rbtree_t *visited)
 {
 	sqfs_tree_node_t *n, *prev, **tail;
 	sqfs_inode_generic_t *inode;
@@ -119,13 +145,18 @@ static int fill_dir(sqfs_dir_reader_t *dr, sqfs_tree_node_t *root,
 			sqfs_dir_reader_state_t nstate;
 
 			if (!(flags & SQFS_TREE_NO_RECURSE)) {
+				err = enter_directory(visited, n);
+				if (err)
+					return err;
+
 				err = sqfs_dir_reader_open_dir(dr, n->inode,
 					       &nstate,
 					       SQFS_DIR_OPEN_NO_DOT_ENTRIES);
 				if (err)
 					return err;
 
-				err = fill_dir(dr, n, &nstate, flags);
+				err = fill_dir(dr, n, &nstate, flags,
+					       visited);
 				if (err)
 					return err;
 			}
@@ -258,13 +289,23 @@ int sqfs_dir_reader_get_full_hierarchy(sqfs_dir_reader_t *rd,
 	if (tail->inode->base.type == SQFS_INODE_DIR ||
 	    tail->inode->base.type == SQFS_INODE_EXT_DIR) {
 		sqfs_dir_reader_state_t state;
+		rbtree_t visited;
 
 		ret = sqfs_dir_reader_open_dir(rd, tail->inode, &state,
 					       SQFS_DIR_OPEN_NO_DOT_ENTRIES);
 		if (ret)
 			goto fail;
 
-		ret = fill_dir(rd, tail, &state, flags);
+		ret = rbtree_init(&visited, sizeof(sqfs_u32), 0,
+				  compare_inode_numbers);
+		if (ret)
+			goto fail;
+
+		ret = enter_directory(&visited, tail);
+		if (ret == 0)
+			ret = fill_dir(rd, tail, &state, flags, &visited);
+
+		rbtree_cleanup(&visited);
 		if (ret)
 			goto fail;
 	}
